@@ -570,7 +570,7 @@ fn main() {
     ck.assume("padding elements of the im2col virtual matrix are 0");
     ck.set_threads(8);
 
-    let n = ck.pick(7_500, 450_000);
+    let n = ck.pick(6_000, 90_000);
     ck.prop("single", n, || case(Kind::Single), oracle);
     ck.prop("gemv", n / 3, || case(Kind::Gemv), oracle);
     ck.prop("batched", n / 5, || case(Kind::Batched), oracle);
